@@ -127,7 +127,7 @@ impl Property for C11 {
         "case = one shared Gauge or IntGauge (standalone - one handle shared by reference, or two handles - or a GaugeVec/IntGaugeVec child), 2-3 threads x 1-5 operations from \
          set/inc/dec/add/sub/get/Collector::collect with small integer or dyadic arguments (25% of programs: also negative, 2^40, \
          1e300, f64::MAX, +Inf, integers up to 2^59 - IEEE resp. exact integer arithmetic in the model; 7% of programs: the gauge starts at \
-         -0.0 and arguments are +-0.0 / 1 / 0.5; 10% of float programs: the gauge starts at NaN, +Inf or -Inf and arguments are NaN / +-Inf / 5 / 1 / 0.5, all NaNs being one value), and a schedule (random walk, PCT with 1-3 priority change points, or a window that pauses one thread before its \
+         -0.0 and arguments are +-0.0 / 1 / 0.5; 10% of float programs: the gauge starts at NaN, +Inf or -Inf and arguments are NaN / +-Inf / 5 / 1 / 0.5, all NaNs being one value; 12% of integer programs: the gauge starts at -7 / -1000 / -2^62, sets write negative values, arguments include i64::MIN and -2^62, and programs in which some order of the calls could overflow are discarded), and a schedule (random walk, PCT with 1-3 priority change points, or a window that pauses one thread before its \
          k-th atomic step while another completes whole operations) with up to 3 injected spurious compare-exchange failures; the \
          real library code runs one atomic step at a time in that order. Oracle: exhaustive linearizability search against the \
          sequential gauge model; on set-free programs the final value equals the signed sum. Non-trivial: a thread was pre-empted \
@@ -201,8 +201,18 @@ impl Property for C11 {
             start = [f64::NAN, f64::INFINITY, f64::NEG_INFINITY][src.below(3)];
             sys.g.exec(GOp::Set(start));
         }
+        // 12% of integer programs work at the edge of the range: the gauge starts at a negative value, sets write negative values, and
+        // arguments include i64::MIN - sub(i64::MIN) adds 2^63, which a negative gauge takes without overflow. Programs in which some
+        // order of the calls could leave the i64 range are discarded (see below): what happens on overflow is not part of the statement
+        let extreme = !float && !wide && src.chance(30);
+        let mut istart = 0i64;
+        if extreme {
+            istart = [-1000i64, -7, -(1i64 << 62)][src.below(3)];
+            sys.g.exec(GOp::Set(istart as f64));
+        }
         let nthreads = 2 + src.below(2);
         let mut prog: Vec<Vec<GOp>> = vec![];
+        let mut edge_used = false;
         for _ in 0..nthreads {
             let n = 1 + src.below(5);
             let mut ops = vec![];
@@ -225,6 +235,15 @@ impl Property for C11 {
                 if nonfinite {
                     v = [5.0, 1.0, 0.5, f64::INFINITY, f64::NEG_INFINITY, f64::NAN][src.below(6)];
                 }
+                if extreme {
+                    v = [1.0, -3.0, 7.0, -500.0, i64::MIN as f64, -4611686018427387904.0][src.below(6)];
+                }
+                // (range-edge programs: the one call that adds 2^63 is drawn directly, once per program at most)
+                if extreme && !edge_used && src.chance(40) {
+                    edge_used = true;
+                    ops.push(GOp::Sub(i64::MIN as f64));
+                    continue;
+                }
                 ops.push(match src.below(9) {
                     0 | 1 => GOp::Add(v),
                     2 => GOp::Sub(v),
@@ -236,6 +255,44 @@ impl Property for C11 {
                 });
             }
             prog.push(ops);
+        }
+        if extreme {
+            // sets write negative values only
+            for p in prog.iter_mut() {
+                for o in p.iter_mut() {
+                    if let GOp::Set(x) = o {
+                        *x = -x.abs() - 1.0;
+                    }
+                }
+            }
+        }
+        if !float {
+            // every value any order of the calls can produce: a base (the start or a set value) plus a subset of the deltas
+            let mut bases: Vec<i128> = vec![istart as i128];
+            let (mut pos, mut neg) = (0i128, 0i128);
+            for o in prog.iter().flatten() {
+                let d: i128 = match o {
+                    GOp::Set(x) => {
+                        bases.push(*x as i64 as i128);
+                        0
+                    }
+                    GOp::Inc => 1,
+                    GOp::Dec => -1,
+                    GOp::Add(x) => *x as i64 as i128,
+                    GOp::Sub(x) => -(*x as i64 as i128),
+                    _ => 0,
+                };
+                if d > 0 {
+                    pos += d;
+                } else {
+                    neg += d;
+                }
+            }
+            let lo = bases.iter().min().unwrap() + neg;
+            let hi = bases.iter().max().unwrap() + pos;
+            if lo < i64::MIN as i128 || hi > i64::MAX as i128 {
+                return Verdict::Discard("some order of the calls would overflow the integer gauge");
+            }
         }
         let total: usize = prog.iter().map(|p| p.len()).sum();
         let threads: Vec<Vec<OpFn<Option<u64>>>> = prog
@@ -279,11 +336,11 @@ impl Property for C11 {
                 .collect();
             format!("{} gauge{}, program {:?}, history {}", if float { "float" } else { "int" }, if via_vec { " (vector child)" } else { "" }, prog, h.join("; "))
         };
-        if linearize(&GModel(if float { fbits(start) } else { 0 }, float), &hist).is_none() {
+        if linearize(&GModel(if float { fbits(start) } else { istart as u64 }, float), &hist).is_none() {
             return fail("not-linearizable", describe());
         }
         let set_free = prog.iter().all(|p| p.iter().all(|o| !matches!(o, GOp::Set(_))));
-        if set_free && !wide && !nonfinite {
+        if set_free && !wide && !nonfinite && !extreme {
             let mut sum = 0.0;
             for p in &prog {
                 for o in p {
@@ -318,6 +375,9 @@ impl Property for C11 {
         }
         if nonfinite {
             rep.class("non-finite-play(starts at NaN/+Inf/-Inf)");
+        }
+        if extreme {
+            rep.class("integer-range-edge(negative gauge, i64::MIN arguments, no order overflows)");
         }
         if exec.spurious_injected > 0 {
             rep.class("spurious-cas-failure-injected");
